@@ -132,7 +132,21 @@ func GenCase(r *rand.Rand, seed int64, kind string) Case {
 		cs.PauseMs = 25
 		cs.Out.FailPlan = "none"
 		cs.Out.FlushMs = 20
-		switch r.Intn(5) {
+		switch r.Intn(6) {
+		case 5:
+			// several streams are charged at once while all processors sleep, then one
+			// processor is parked behind a held line for seconds: the others must serve
+			// the remaining streams
+			cs.Chain = []ActionSpec{join}
+			cs.EventTimeoutMs = 30000
+			cs.Procs = pickInt(r, 1, 2)
+			cs.Sources = 3 + r.Intn(4)
+			cs.Readers = cs.Sources
+			cs.Streams = 0
+			cs.Pattern = []string{"S", "P", "N", "N"}
+			cs.PauseMs = 2600
+			cs.PerSource = 3
+			cs.PadMax = 0
 		case 4:
 			// the next line of a run arrives exactly when the stream time-out is due:
 			// put() holds the stream lock across a streamer heartbeat tick, so the
@@ -148,7 +162,7 @@ func GenCase(r *rand.Rand, seed int64, kind string) Case {
 			// an earlier action discards an event of the sequence while join
 			// holds one and the stream is momentarily empty
 			cs.Chain = []ActionSpec{script, join}
-			cs.Pattern = []string{"S", "D", "P", "N", "N", "S", "C", "D", "P", "N"}
+			cs.Pattern = []string{"S", "D", "P", "N", "N", "S", "C", "D", "P", "N", "S", "Z", "N", "S", "C", "Z", "P", "N"}
 		case 1:
 			// join with match conditions: an event that does not match arrives mid-hold
 			cs.Chain = []ActionSpec{{"type": "join", "field": "msg", "start": "/^S:/", "continue": "/^C:/", "match_fields": map[string]any{"jm": "y"}}}
@@ -213,6 +227,20 @@ func GenCase(r *rand.Rand, seed int64, kind string) Case {
 		if r.Intn(3) == 0 {
 			cs.DLQ = &OutSpec{Workers: 1, Count: 4, FlushMs: 20, Plain: true, FailPlan: "none"}
 		}
+	case "volume":
+		// many small events on few streams, half of them discarded, batches of one:
+		// discards (processor) and commits (batch workers) of one stream meet constantly
+		cs.Chain = []ActionSpec{script}
+		cs.OpWeights = map[string]int{"pass": 10, "discard": 10}
+		cs.Sources = 1 + r.Intn(2)
+		cs.Readers = cs.Sources
+		cs.Streams = r.Intn(2)
+		cs.PerSource = 6000 + r.Intn(6000)
+		cs.PadMax = 0
+		cs.Capacity = pickInt(r, 64, 256)
+		cs.Procs = pickInt(r, 2, 4, 8)
+		cs.EventTimeoutMs = 30000
+		cs.Out = OutSpec{Workers: pickInt(r, 2, 4), Count: 1, FlushMs: 20, Plain: true, FailPlan: "none"}
 	case "tiny":
 		cs.Capacity = pickInt(r, 1, 1, 2, 3)
 		cs.Procs = pickInt(r, 1, 1, 2)
@@ -260,7 +288,15 @@ func GenCase(r *rand.Rand, seed int64, kind string) Case {
 		}
 		cs.HookSleeps["stream.tryUnblock"] = [2]int{1000 + r.Intn(3000), 100}
 	}
-	if r.Intn(2) == 0 {
+	if (kind == "mix" || kind == "tiny") && r.Intn(3) == 0 {
+		// put() holds the stream lock a little longer now and then: finalizers of
+		// the stream (processor discards, batcher commits) queue up on it
+		if cs.HookSleeps == nil {
+			cs.HookSleeps = map[string][2]int{}
+		}
+		cs.HookSleeps["stream.put.beforeSignal"] = [2]int{200 + r.Intn(800), 30}
+	}
+	if r.Intn(2) == 0 && kind != "volume" {
 		if cs.HookSleeps == nil {
 			cs.HookSleeps = map[string][2]int{}
 		}
